@@ -221,8 +221,9 @@ func main() {
 
 // extra sub-commands registered by individual properties (e.g. C13 scenario drivers)
 var extras = map[string]func(args []string){
-	"C17 round2": func([]string) { c17.Round2(hx.Seed()) },
-	"C11 worker": func([]string) { c11.Worker() },
+	"C17 round2":  func([]string) { c17.Round2(hx.Seed()) },
+	"C11 worker":  func([]string) { c11.Worker() },
+	"C06 signcmd": c06.SignCmdMain, // relic's main() for the standalone `sign` command (re-executed by harness/c06/rec.go)
 	"C11 mkbases": func(a []string) {
 		if len(a) != 1 {
 			fmt.Fprintln(os.Stderr, "usage: vh C11 mkbases <dir>")
